@@ -828,6 +828,15 @@ func lkRunAll(t *testing.T, runMod string, honestPct int, withPublic bool) {
 		}
 		c := lkGen(r, i, r.Chance(honestPct))
 		c.burst = r.Chance(25)
+		if c.cancelAt >= 0 {
+			// a cancellation races with whatever the lookup loop has queued: with a parked loop or with dials
+			// in flight the order in which it sees the cancellation and the outcomes is the scheduler's
+			// choice, so cancelled lookups run without these two devices
+			c.burst = false
+			for j := range c.peers {
+				c.peers[j].slowDial = false
+			}
+		}
 		vfBeat(map[string]any{"case": i, "seed": seed, "K": c.k, "alpha": c.alpha, "beta": c.beta, "npeers": len(c.peers), "stop": []int{c.stopKind, c.stopArg}, "strategy": c.strategy, "cancelAt": c.cancelAt})
 		var o *lkObs
 		var self peer.ID
